@@ -22,12 +22,19 @@ pub enum Arch {
     Amd64,
     Arm,
     Arm64,
+    /// Breakpad's older arm64 context layout (has its own unwinder copy).
+    Arm64Old,
+    Mips,
+    /// Context-only architectures: no unwinder, but the state must still render.
+    Ppc,
+    Ppc64,
+    Sparc,
 }
 
 impl Arch {
     pub fn word(self) -> u64 {
         match self {
-            Arch::X86 | Arch::Arm => 4,
+            Arch::X86 | Arch::Arm | Arch::Mips | Arch::Ppc => 4,
             _ => 8,
         }
     }
@@ -36,7 +43,11 @@ impl Arch {
             Arch::X86 => "x86",
             Arch::Amd64 => "x86_64",
             Arch::Arm => "arm",
-            Arch::Arm64 => "arm64",
+            Arch::Arm64 | Arch::Arm64Old => "arm64",
+            Arch::Mips => "mips",
+            Arch::Ppc => "ppc",
+            Arch::Ppc64 => "ppc64",
+            Arch::Sparc => "sparc",
         }
     }
     fn processor_architecture(self) -> u16 {
@@ -45,6 +56,11 @@ impl Arch {
             Arch::Amd64 => md::ProcessorArchitecture::PROCESSOR_ARCHITECTURE_AMD64,
             Arch::Arm => md::ProcessorArchitecture::PROCESSOR_ARCHITECTURE_ARM,
             Arch::Arm64 => md::ProcessorArchitecture::PROCESSOR_ARCHITECTURE_ARM64,
+            Arch::Arm64Old => md::ProcessorArchitecture::PROCESSOR_ARCHITECTURE_ARM64_OLD,
+            Arch::Mips => md::ProcessorArchitecture::PROCESSOR_ARCHITECTURE_MIPS,
+            Arch::Ppc => md::ProcessorArchitecture::PROCESSOR_ARCHITECTURE_PPC,
+            Arch::Ppc64 => md::ProcessorArchitecture::PROCESSOR_ARCHITECTURE_PPC64,
+            Arch::Sparc => md::ProcessorArchitecture::PROCESSOR_ARCHITECTURE_SPARC,
         }) as u16
     }
 }
@@ -133,6 +149,8 @@ pub struct WorldOpts {
     pub need_debug_ids: bool,
     /// Allow corrupt / random symbol files.
     pub hostile_symbols: bool,
+    /// Also arm64-old, mips and the context-only architectures ppc / ppc64 / sparc.
+    pub all_archs: bool,
 }
 
 pub struct World {
@@ -197,7 +215,14 @@ fn cfi_for(arch: Arch, adversarial: bool) -> (String, Option<String>) {
                 (format!(".cfa: $rsp {} + .ra: .cfa 8 - ^", 8 + 8 * ch("dump.cfi.amd64.k", 6)), None)
             }
         }
-        Arch::Arm64 => {
+        Arch::Mips | Arch::Ppc | Arch::Ppc64 | Arch::Sparc => {
+            if weird {
+                (".cfa: $sp 0 + .ra: $ra".into(), None)
+            } else {
+                (format!(".cfa: $sp {} + .ra: .cfa 4 - ^ $fp: .cfa 8 - ^", 16 + 8 * ch("dump.cfi.mips.k", 4)), None)
+            }
+        }
+        Arch::Arm64 | Arch::Arm64Old => {
             if weird {
                 match ch("dump.cfi.arm64.weird", 4) {
                     0 => {
@@ -367,6 +392,51 @@ fn context_section(arch: Arch, r: &Regs, rng: &mut Xoshiro) -> Section {
             let n = bytes.pwrite_with(c, 0, scroll::LE).expect("ctx");
             bytes.truncate(n);
         }
+        Arch::Arm64Old => {
+            let mut c = md::CONTEXT_ARM64_OLD::default();
+            c.context_flags = 0x8000_0000 | 0x3;
+            c.pc = r.ip;
+            c.sp = r.sp;
+            c.iregs[29] = r.fp;
+            c.iregs[30] = r.lr;
+            c.iregs[19] = rng.next_u64();
+            bytes = vec![0u8; 1024];
+            let n = bytes.pwrite_with(c, 0, scroll::LE).expect("ctx");
+            bytes.truncate(n);
+        }
+        Arch::Mips => {
+            let mut c = md::CONTEXT_MIPS::default();
+            c.context_flags = 0x40000 | 0x7;
+            c.epc = r.ip & 0xffff_ffff;
+            c.iregs[29] = r.sp & 0xffff_ffff;
+            c.iregs[30] = r.fp & 0xffff_ffff;
+            c.iregs[31] = r.lr & 0xffff_ffff;
+            c.iregs[16] = rng.next_u32() as u64;
+            bytes = vec![0u8; 1024];
+            let n = bytes.pwrite_with(c, 0, scroll::LE).expect("ctx");
+            bytes.truncate(n);
+        }
+        Arch::Ppc => {
+            use scroll::ctx::SizeWith;
+            bytes = vec![0u8; md::CONTEXT_PPC::size_with(&scroll::LE)];
+            bytes[0..4].copy_from_slice(&(0x2000_0000u32 | 0x3).to_le_bytes());
+            bytes[4..8].copy_from_slice(&(r.ip as u32).to_le_bytes());
+            bytes[16..20].copy_from_slice(&(r.sp as u32).to_le_bytes());
+        }
+        Arch::Ppc64 => {
+            use scroll::ctx::SizeWith;
+            bytes = vec![0u8; md::CONTEXT_PPC64::size_with(&scroll::LE)];
+            bytes[0..8].copy_from_slice(&(0x0100_0000u64 | 0x3).to_le_bytes());
+            bytes[8..16].copy_from_slice(&r.ip.to_le_bytes());
+            bytes[32..40].copy_from_slice(&r.sp.to_le_bytes());
+        }
+        Arch::Sparc => {
+            use scroll::ctx::SizeWith;
+            bytes = vec![0u8; md::CONTEXT_SPARC::size_with(&scroll::LE)];
+            bytes[0..4].copy_from_slice(&(0x1000_0000u32 | 0x3).to_le_bytes());
+            bytes[120..128].copy_from_slice(&r.sp.to_le_bytes());
+            bytes[272..280].copy_from_slice(&r.ip.to_le_bytes());
+        }
         Arch::Arm64 => {
             let mut c = md::CONTEXT_ARM64::default();
             c.context_flags = 0x40001f;
@@ -396,7 +466,7 @@ fn put_word(stack: &mut [u8], off: usize, w: u64, val: u64) {
 const PROC_LIMITS_FULL: &str = "Limit                     Soft Limit           Hard Limit           Units     \nMax cpu time              unlimited            unlimited            seconds   \nMax file size             unlimited            unlimited            bytes     \nMax stack size            8388608              unlimited            bytes     \nMax core file size        0                    unlimited            bytes     \nMax processes             111064               111064               processes \nMax open files            1048576              1048576              files     \nMax nice priority         0                    0                    \nMax realtime timeout      unlimited            unlimited            us        \n";
 
 pub fn gen_world(opts: &WorldOpts) -> World {
-    let arch = [Arch::Amd64, Arch::X86, Arch::Arm64, Arch::Arm][ch("dump.arch", 4) as usize];
+    let arch = [Arch::Amd64, Arch::X86, Arch::Arm64, Arch::Arm, Arch::Amd64, Arch::X86, Arch::Arm64, Arch::Arm, Arch::Arm64Old, Arch::Mips, Arch::Ppc, Arch::Ppc64, Arch::Sparc][ch("dump.arch", if opts.all_archs { 13 } else { 8 }) as usize];
     let os = [OsKind::Windows, OsKind::Linux, OsKind::MacOs, OsKind::Android, OsKind::Ios][ch("dump.os", 5) as usize];
     let w = arch.word();
     let e = Endian::Little;
